@@ -57,6 +57,7 @@ func TestVerifC19(t *testing.T) {
 	tmp, _ := os.MkdirTemp("", "verif-c19-")
 	mc.OnExit = append(mc.OnExit, func() { os.RemoveAll(tmp) })
 	opt := CreateOptionsForTest(tmp)
+	opt.ClusterRequestTimeout = "3s" // bounds how long a pull hangs while the server is down (outage job)
 	clsI, err := New(opt)
 	check(err)
 	cls := clsI.(*cluster)
@@ -75,10 +76,11 @@ func TestVerifC19(t *testing.T) {
 		apis = []string{"SyncPrefix", "Sync", "SyncRawPrefix", "SyncRaw"}
 		gaps = []time.Duration{0, 150 * time.Millisecond}
 	}
+	var outage bool // the etcd server stays down for longer than a pull period plus the request timeout: pulls FAIL
 	run := func(withRestart bool, maxLen int, blocked bool) func(c *mc.Ctx) {
 		return func(c *mc.Ctx) {
 			api := apis[c.Choose(len(apis), "api")]
-			lazy := c.Choose(2, "consumer-reads-only-afterwards") == 1
+			lazy := !outage && c.Choose(2, "consumer-reads-only-afterwards") == 1
 			gap := gaps[c.Choose(len(gaps), "gap")]
 			n := 1 + c.Choose(maxLen, "history-length")
 			var ops []c19Op
@@ -94,11 +96,18 @@ func TestVerifC19(t *testing.T) {
 				nprefix = len(ops)
 			}
 			for i := 0; i < n; i++ {
+				if outage {
+					ops = append(ops, []c19Op{{"put", "k1", "v1"}, {"put", "k2", "v1"}}[c.Choose(2, "op")])
+					continue
+				}
 				ops = append(ops, c19Ops[c.Choose(len(c19Ops), "op")])
 			}
 			restartBefore := -1
 			if withRestart {
 				restartBefore = c.Choose(n+1, "restart-etcd-before-op") // n = after the last op
+			}
+			if outage {
+				restartBefore = n - 1 + c.Choose(2, "outage-before-or-after-the-last-op")
 			}
 			if !c.Mine() {
 				return
@@ -197,6 +206,9 @@ func TestVerifC19(t *testing.T) {
 				wg.Add(1)
 				cls.CloseServer(wg)
 				wg.Wait()
+				if outage {
+					time.Sleep(cls.requestTimeout + 3*c19Pull)
+				}
 				done, _, err := cls.StartServer()
 				if err != nil {
 					c.Failf("harness:restart", "%v", err)
@@ -308,7 +320,17 @@ func TestVerifC19(t *testing.T) {
 			},
 			Replay: func(ch []int) (*mc.Failure, []string) { return mc.ReplayOne(f, ch) }}
 	}
-	jobs := []mc.Job{mk("histories", run(false, L, false), 12), mk("continuations-after-the-consumer-stalled", run(false, 2, true), 12)}
+	outageLen := 1
+	if envv.Thorough() {
+		outageLen = 2
+	}
+	outageRun := run(true, outageLen, false)
+	jobs := []mc.Job{mk("histories", run(false, L, false), 12), mk("continuations-after-the-consumer-stalled", run(false, 2, true), 12),
+		mk("histories-with-etcd-outage", func(c *mc.Ctx) {
+			outage = true
+			defer func() { outage = false }()
+			outageRun(c)
+		}, 12)}
 	if envv.Thorough() {
 		jobs = append(jobs, mk("histories-with-etcd-restart", run(true, 2, false), 12))
 	}
